@@ -640,10 +640,10 @@ func (r *c07rRun) labelList() []string {
 
 const c07RecallRule = "GENERATED cases (rapid): N in {200..3000} vectors derived from a drawn data seed (uniform / gaussian / clustered / every vector 2-6 times / 10% zero vectors), dim in {2,3,8,16,32,64} (+128,256 in the thorough tier), " +
 	"M in {2,4,8,16} x efConstruction in {8,40,200} x {euclidean/float32, cosine/float32, euclidean/float16, cosine/int8}, built by single VAdd, VAddBatch, VImport(+snapshot) or a mix (chunk 50/200/1000), followed by 1-5 phases out of " +
-	"delete 10/30/50 %, vacuum, refine, restart, VCompress, grow (more single + batch inserts). ANCHOR cases: four fixed configurations (default M=16/efC=200 by batch and by single inserts on 64-d data, M=8/efC=40 float16 fast import, compression to int8) " +
+	"delete 10/30/50 %, vacuum, refine, restart, VCompress, grow (more single + batch inserts). ANCHOR cases: five fixed configurations (default M=16/efC=200 by batch and by single inserts on 64-d data, M=8/efC=40 float16 fast import, M=8/efC=40 single inserts on 64-d data, compression to int8) " +
 	"where only the level seed and the data seed vary. After the build and after every phase 60 (anchors: 200) queries, half stored vectors and half fresh ones, measure recall@10 against brute force over the VGet read-back vectors " +
 	"(ties at the 10th distance count as hits) with efSearch=0 and efSearch=100, and the self-retrieval rate (query = stored vector => rank 1 is that vector or one at least as close). " +
-	"ORACLE: every checkpoint with >= 50 live vectors must reach the floors of its class, measured on the unchanged tree (10904 cases, c07_floors_test.go): anchors (homogeneous, 320 seeds each): min(mean - 10 sd, min - 3 sd); " +
+	"ORACLE: every checkpoint with >= 50 live vectors must reach the floors of its class, measured on the unchanged tree (/repo c682405, see the header of c07_floors_test.go): anchors (homogeneous, 320 seeds each): min(mean - 10 sd, min - 3 sd); " +
 	"generated classes (M / efConstruction / data kind / intrinsic difficulty / int8 / share of one-by-one inserts; heterogeneous and heavy-tailed): min(mean - 10 sd, observed min - 0.40) with sd >= 0.03; " +
 	"the mean z-score of all checkpoints of a run must be >= -10 sd of the mean. Classes seen in < 15 cases, the zero-vector data kind (a clique of > 2*M identical vectors) and fast-import graphs restored from a snapshot " +
 	"(the needs-refine compensation is not persisted) are observed only. NON-TRIVIAL = N >= 500."
